@@ -33,7 +33,7 @@ def main(pid: str, path: str) -> int:
             return 1
         return 0 if v.agree else 1
     # component families provide their own replay
-    for fam in ("breaker_ops", "budget_ops", "strategies", "classifiers", "retry_after", "threads"):
+    for fam in ("breaker_ops", "budget_ops", "strategies", "classifiers", "retry_after", "threads", "sigs"):
         try:
             mod = importlib.import_module(f"harness.families.{fam}")
         except Exception:  # noqa: BLE001
